@@ -350,7 +350,14 @@ def cases(draw):
     for _ in range(n):
         k = draw(st.sampled_from([1, 1, 2, 2, 2, 3, 3, 3, 3, 4]))   # clauses of 4-5 literals: built and compared, not replayed (below)
         cls.append([draw(st.sampled_from([1, 2, 3, 4])) * draw(st.sampled_from([1, -1])) for _ in range(k)])
-    if draw(st.integers(0, 5)) == 0:
+    if draw(st.integers(0, 6)) == 0:
+        # directed: one clause of four literals refuted by unit clauses in every order (each literal is resolved away from the
+        # front, the middle and the last position while three others remain)
+        lits = [x * draw(st.sampled_from([1, -1])) for x in draw(st.permutations([1, 2, 3, 4]))]
+        if draw(st.integers(0, 3)) == 0: lits[draw(st.integers(0, 2))] = lits[3 if draw(st.booleans()) else 0]
+        cls = [lits] + [[-x] for x in draw(st.permutations(sorted(set(lits))))]
+        cls = list(draw(st.permutations(cls))) if draw(st.booleans()) else cls
+    elif draw(st.integers(0, 5)) == 0:
         # directed: every clause trivially true, several clauses over the same literals in different order / multiplicity
         # (different formulas with equal literal sets)
         v = draw(st.sampled_from([1, 2, 3, 4])); w = draw(st.sampled_from([1, 2, 3, 4]))
